@@ -86,6 +86,8 @@ def selftest_axioms(lim=40, kmax=9):
             assert t >= 0 and c_bit(x, t) and all(not c_bit(x, k) for k in range(-2, t))
         if x >= 0 and x < 12:
             assert (1 << x) > 0 and all(c_bit(1 << x, k) == (k == x) for k in range(-2, 14))
+            # B12 (contracts/fcbo_theory.py): (1 << x) - 1 is the natural with exactly the bits below x
+            assert (1 << x) - 1 >= 0 and all(c_bit((1 << x) - 1, k) == (0 <= k < x) for k in range(-2, 14))
         for k in K:
             if k < 0:
                 assert not c_bit(x, k)
